@@ -2903,6 +2903,58 @@ def gen_EngineLife(repo):
     L.append("def poissonMentions : Nat := %d" % sum(len(re.findall(r"poisson_distribution", _cpp(repo, f))) for f in (
         "engine.cpp", "SimulationAlgorithm3DBase.hpp", "SimulationAlgorithmGraphBase.hpp", "TauLeap3D.hpp", "TauLeapGraph.hpp",
         "Gillespie3D.hpp", "GillespieGraph.hpp", "Euler3D.hpp", "EulerGraph.hpp")))
+    # index formulas of the state / scratch vectors, from EVERY subscript occurrence in the algorithm sources: each
+    # occurrence must have the given shape; its variables are renamed canonically, and all occurrences must agree
+    algo_files = ["SimulationAlgorithm3DBase.hpp", "SimulationAlgorithmGraphBase.hpp", "Euler3D.hpp", "EulerGraph.hpp",
+                  "TauLeap3D.hpp", "TauLeapGraph.hpp", "Gillespie3D.hpp", "GillespieGraph.hpp"]
+
+    def shaped(vec_re, files, shape, canon, names, what):
+        forms = set()
+        nocc = 0
+        for f in files:
+            for name, expr in _subscripts(_cpp(repo, f)):
+                if re.fullmatch(vec_re, name):
+                    m = re.fullmatch(shape, expr)
+                    if not m:
+                        raise AnchorLost("%s: subscript %s[%s] in %s does not have the shape %s" % (what, name, expr, f, shape))
+                    forms.add(CppExpr(canon, names).parse())
+                    nocc += 1
+        if len(forms) != 1:
+            raise AnchorLost("%s: no / several index forms %s" % (what, sorted(forms)))
+        return forms.pop(), nocc
+    cs = r"(?:\w+|mesh_neighbor_index\[\w+\]\[\w+\])"     # a cell: a variable or a neighbour-table entry
+    nm = {"i": "i", "s": "s", "r": "r", "n": "n", "n_species": "ns", "n_reactions": "nr", "nn": "nn"}
+    L.append("/-- index formulas of the state and scratch vectors (every read / write site in the algorithm sources agrees) -/")
+    for lean_name, vec_re, files, shape, canon, args in (
+            ("xIndex", r"mesh_x", algo_files, cs + r"\*n_species\+\w+", "i*n_species+s", "ns i s"),
+            ("chsttIndex", r"mesh_chstt", algo_files, r"\w+\*n_species\+\w+", "i*n_species+s", "ns i s"),
+            ("dxdtIndex", r"mesh_dxdt", algo_files, r"\w+\*n_species\+\w+", "i*n_species+s", "ns i s"),
+            ("nrIndex", r"mesh_nr", algo_files, r"\w+\*n_reactions\+\w+", "i*n_reactions+r", "nr i r"),
+            ("arIndex", r"mesh_ar", algo_files, r"\w+\*n_reactions\+\w+", "i*n_reactions+r", "nr i r"),
+            ("nbrReadIndex", r"mesh_neighbors", algo_files, r"\w+\*6\+\w+", "i*6+n", "i n"),
+            ("ndIndexGrid", r"mesh_nd", ["TauLeap3D.hpp"], r"\w+\*6\*n_species\+\w+\*6\+\w+", "i*6*n_species+s*6+n", "ns i s n"),
+            ("slotInnerGraph", r"(?:mesh_nd|mesh_ad|mesh_kd_out|mesh_kd_in)\[\w+\]", ["SimulationAlgorithmGraphBase.hpp", "TauLeapGraph.hpp", "GillespieGraph.hpp"],
+             r"\w+\*mesh_neighbor_n\[\w+\]\+\w+", "s*nn+n", "nn s n")):
+        form, nocc = shaped(vec_re, files, shape, canon, nm, lean_name)
+        L.append("def %s (%s : Int) : Int := %s   -- %d sites" % (lean_name, args, form, nocc))
+    # mesh_ad on the grid is written as i*6*n_species+s*6+n and scanned as i*n_species*6+j*6+n
+    adforms = sorted(set(e for n_, e in _subscripts(_cpp(repo, "Gillespie3D.hpp")) if n_ == "mesh_ad"))
+    if adforms != ["i*6*n_species+s*6+n", "i*n_species*6+j*6+n"]:
+        raise AnchorLost("Gillespie3D mesh_ad subscripts: %s" % adforms)
+    L.append("def adIndexGridW (ns i s n : Int) : Int := %s" % CppExpr("i*6*n_species+s*6+n", nm).parse())
+    L.append("def adIndexGridR (ns i s n : Int) : Int := %s" % CppExpr("i*n_species*6+s*6+n", nm).parse())
+    # sizes given to resize / constructors (normalised text), per class
+    sizes = []
+    for f in algo_files:
+        for v, e in re.findall(r"(?:this->)?(\w+(?:\[\w+\])?)\s*\.\s*resize\s*\(([^;]*)\)\s*;", _cpp(repo, f)):
+            sizes.append((f, _lf_norm(v), _lf_norm(e)))
+    for f in ("SimulationAlgorithm3DBase.hpp",):
+        for v, e in re.findall(r"this->(\w+)\s*=\s*std::vector<\w+>\s*\(([^;{}]*)\)\s*;", _cpp(repo, f)):
+            sizes.append((f, v, _lf_norm(e)))
+    L.append("/-- every `resize(...)` / sized constructor in the algorithm sources: (file, vector, size expression) -/")
+    L.append("def vectorSizes : List (String × String × String) := %s\n" % lean_list(
+        ["(%s, %s, %s)" % (lean_str(a), lean_str(b), lean_str(c)) for a, b, c in sizes]))
+
     # every statement of the engine sources that mentions the generator `rng` (seeded once in Init, advanced only by draws)
     uses = []
     for f in ("SimulationAlgorithm3DBase.hpp", "SimulationAlgorithmGraphBase.hpp", "Euler3D.hpp", "EulerGraph.hpp", "TauLeap3D.hpp",
